@@ -33,6 +33,21 @@ def strip_gated(res):
     return r
 
 
+def texts_of(x):
+    """all 'text' and 'writtenForm' strings of a resource description, whitespace-normalised as the loader does"""
+    out = []
+    if isinstance(x, dict):
+        for k, v in x.items():
+            if k in ('text', 'writtenForm') and isinstance(v, str):
+                out.append(' '.join(v.split()) if k == 'text' else v)
+            else:
+                out += texts_of(v)
+    elif isinstance(x, (list, tuple)):
+        for v in x:
+            out += texts_of(v)
+    return out
+
+
 def is_ext(res):
     return any(lx.get('extends') for lx in res['lexicons'])
 
@@ -61,6 +76,15 @@ def run(rep, tier, build, replay=None):
             rep.fail('a structurally valid generated document is not loadable', {'resource': res}, {'got': rec['load']})
             continue
         r0 = rec['load'][1]
+        # what load returns carries the document's texts and written forms, character for character (after the
+        # whitespace normalisation the loader documents); compared with the generated description, not with wn's own output
+        want = sorted(texts_of(res))
+        got = sorted(texts_of(r0))
+        if want != got:
+            bad = [t for t in want if t not in got][:1] or [t for t in got if t not in want][:1]
+            rep.fail('load() does not return the texts of the document', {'resource': res},
+                     {'a_text_that_differs': (bad[0][:80] + '...(%d chars)' % len(bad[0])) if bad else None,
+                      'n_expected': len(want), 'n_got': len(got)})
         for v in ('1.0', '1.1', '1.2', '1.3'):
             if v == '1.0' and is_ext(r0):
                 continue        # a lexicon extension is not something 1.0 can express
